@@ -70,6 +70,7 @@ func H_sequence() {
 	max := 4*doc.N*(doc.A+1) + 2
 	var got, got2, got3 []int
 	var ended, ended2, ended3, isIter, isNum bool
+	sameAgain := true
 	var cnt float64
 	staysDone := true
 	extra := vInt("extra", 0, 3)
@@ -87,11 +88,13 @@ func H_sequence() {
 				staysDone = false
 			}
 		}
-		e2, _ := Compile(expr)
-		if it2, ok := e2.Evaluate(navAt(doc, cur, attr)).(*NodeIterator); ok {
+		// the same compiled expression serves Evaluate and a second Select
+		if it2, ok := e.Evaluate(navAt(doc, cur, attr)).(*NodeIterator); ok {
 			isIter = true
 			got2, ended2 = vDrain(it2, max)
 		}
+		again, endedAgain := vDrain(e.Select(navAt(doc, cur, attr)), max)
+		sameAgain = endedAgain && vSameInts(got, again)
 		e3, err := Compile("count(" + expr + ")")
 		if err == nil {
 			cnt, isNum = e3.Evaluate(navAt(doc, cur, attr)).(float64)
@@ -113,6 +116,7 @@ func H_sequence() {
 	vAssert(ended, "iterator-terminates")
 	vAssert(staysDone, "movenext-stays-false")
 	vAssert(isIter && ended2 && vSameInts(got, got2), "evaluate-same-sequence")
+	vAssert(sameAgain, "second-select-same-sequence")
 	vAssert(isNum && cnt == float64(len(got)), "count-is-length")
 	rev := make([]int, len(got))
 	for i := range got {
